@@ -229,3 +229,25 @@ PROPS['C15'] = dict(
     kinds={'panic', 'leak'},
     rule='TODO', level_text='TODO', level_note='TODO',
 )
+
+PROPS['C09'] = dict(
+    id='C09', domains=['conc'], no_model={'conc': True},
+    n=dict(quick=dict(conc=300), thorough=dict(conc=6000)),
+    theorems=[('Properties.C09', [])],
+    kinds={'panic', 'deadlock', 'torn-file', 'lost-or-duplicated', 'misplaced', 'nil-but-written', 'batch-not-contiguous', 'batch-split-across-files'},
+    rule='TODO', level_text='TODO', level_note='TODO',
+)
+PROPS['C10'] = dict(
+    id='C10', domains=['conc'], no_model={'conc': True},
+    n=dict(quick=dict(conc=300), thorough=dict(conc=6000)),
+    theorems=[('Properties.C10', [])],
+    kinds={'panic', 'deadlock', 'close-early', 'write-after-close'},
+    rule='TODO', level_text='TODO', level_note='TODO',
+)
+PROPS['C12'] = dict(
+    id='C12', domains=['crash'], no_model={'crash': True},
+    n=dict(quick=dict(crash=300), thorough=dict(crash=10000)),
+    theorems=[('Properties.C12', [])],
+    kinds={'panic', 'crash-unsafe'},
+    rule='TODO', level_text='TODO', level_note='TODO',
+)
